@@ -19,10 +19,15 @@ sed "s#path = \"/repo\"#path = \"$S/repo\"#" /verif/sim/Cargo.toml > $S/sim/Carg
 cp /verif/sim/Cargo.lock $S/sim/Cargo.lock
 printf '[net]\noffline = true\n\n[build]\nrustflags = ["--cfg", "ishape_rust_itree_verif"]\ntarget-dir = "%s/target"\n' $S > $S/sim/.cargo/config.toml
 cp /verif/known_findings.json $S/root/
-( cd $S/sim && CARGO_NET_OFFLINE=true cargo build --release --offline > $S/build.log 2>&1 ) || { echo "BUILD FAILED"; tail -20 $S/build.log; exit 2; }
+( cd $S/sim && CARGO_NET_OFFLINE=true cargo build --release --offline > $S/build.log 2>&1 && CARGO_NET_OFFLINE=true cargo build --profile plain --offline >> $S/build.log 2>&1 ) || { echo "BUILD FAILED"; tail -20 $S/build.log; exit 2; }
 CAUGHT=""
 for id in $IDS; do
   OUT=$(VERIF_ROOT=$S/root VERIF_WORKERS=$W $S/target/release/itree-sim check --prop "$id" --tier quick 2>&1); RC=$?
+  if [ $RC = 0 ]; then
+    # same secondary pass as ./check: a fifth of the runs on the plain release build
+    OUT=$(VERIF_ROOT=$S/root VERIF_WORKERS=$W $S/target/plain/itree-sim check --prop "$id" --tier quick --runs-div 5 --merge-evidence 2>&1); RC=$?
+    [ $RC = 1 ] && OUT="(plain build) $OUT"
+  fi
   if [ $RC = 1 ]; then CAUGHT="$CAUGHT $id"; echo "$OUT" | grep -A1 "^VIOLATION" | head -4 | cut -c1-300;
   elif [ $RC != 0 ]; then echo "$id: harness exit $RC"; echo "$OUT" | tail -3 | cut -c1-300; fi
 done
